@@ -157,9 +157,14 @@ Proof.
 Qed.
 
 (* --- D. the lexer on a normalized path ------------------------------------------------------------------ *)
-Definition LX (rest cur : list N) (start pos : Z) (bs : list (N * Z)) (toks : list token) : lexer :=
-  {| l_rest := rest; l_cur := cur; l_start := start; l_pos := pos; l_fdepth := 0; l_ffd := []; l_fcs := []; l_bs := bs; l_toks := toks |}.
 Definition tk (t : ttype) (v : str) (i : Z) : token := {| ty := t; tval := v; tidx := i |}.
+
+(* the lexer lemmas below hold whatever the filter bookkeeping (filter_depth, filter_func_depth, func_call_stack) is:
+   outside a filter expression the lexer only carries it along *)
+Section LexGen.
+Variables (fd0 : Z) (ffd0 fcs0 : list Z) (bs0 : list (N * Z)).
+Definition LX (rest cur : list N) (start pos : Z) (bs : list (N * Z)) (toks : list token) : lexer :=
+  {| l_rest := rest; l_cur := cur; l_start := start; l_pos := pos; l_fdepth := fd0; l_ffd := ffd0; l_fcs := fcs0; l_bs := bs; l_toks := toks |}.
 
 Lemma LX_pos rest cur p p' bs T : p = p' -> LX rest cur p p bs T = LX rest cur p' p' bs T.
 Proof. intros ->. reflexivity. Qed.
@@ -181,15 +186,15 @@ Proof. unfold l_ignore_ws, l_accept_match, re_match. cbn [l_cur l_rest LX]. rewr
 
 Lemma step_root r : lex_step SRoot (LX (36%N :: r) [] 0 0 [] []) = LNext SSegment (LX r [] 1 1 [] [tk T_ROOT [36%N] 0]).
 Proof. reflexivity. Qed.
-Lemma step_seg_open r p T : lex_step SSegment (LX (91%N :: r) [] p p [] T)
-  = LNext SBracket (LX r [] (p + 1) (p + 1) [(91%N, p + 1 - 1)] (tk T_LBRACKET [91%N] p :: T)).
+Lemma step_seg_open r p T : lex_step SSegment (LX (91%N :: r) [] p p bs0 T)
+  = LNext SBracket (LX r [] (p + 1) (p + 1) ((91%N, p + 1 - 1) :: bs0) (tk T_LBRACKET [91%N] p :: T)).
 Proof. cbn [lex_step]. rewrite ignore_ws_nonws by reflexivity. reflexivity. Qed.
-Lemma step_seg_eof p T : lex_step SSegment (LX [] [] p p [] T) = LStop (LX [] [] p p [] (tk T_EOF [] p :: T)).
+Lemma step_seg_eof p T : lex_step SSegment (LX [] [] p p bs0 T) = LStop (LX [] [] p p bs0 (tk T_EOF [] p :: T)).
 Proof. cbn [lex_step]. rewrite ignore_ws_nil. reflexivity. Qed.
 Lemma step_bracket_quote r q bs T : lex_step SBracket (LX (39%N :: r) [] q q bs T) = LNext (SString 39 false) (LX r [39%N] q (q + 1) bs T).
 Proof. cbn [lex_step]. rewrite ignore_ws_nonws by reflexivity. reflexivity. Qed.
-Lemma step_bracket_close r q i T : lex_step SBracket (LX (93%N :: r) [] q q [(91%N, i)] T)
-  = LNext SSegment (LX r [] (q + 1) (q + 1) [] (tk T_RBRACKET [93%N] q :: T)).
+Lemma step_bracket_close r q i T : lex_step SBracket (LX (93%N :: r) [] q q ((91%N, i) :: bs0) T)
+  = LNext SSegment (LX r [] (q + 1) (q + 1) bs0 (tk T_RBRACKET [93%N] q :: T)).
 Proof. cbn [lex_step]. rewrite ignore_ws_nonws by reflexivity. reflexivity. Qed.
 
 Lemma skipn_len_app {A} (a b : list A) : skipn (length a) (a ++ b) = b.
@@ -240,8 +245,8 @@ Definition key_ok (k : key) : Prop := match k with KName s => forallb is_scalar 
 
 Lemma lex_segment k r p T : key_ok k ->
   exists n, (n <= length (norm_seg k) + 1)%nat /\
-    lex_steps n SSegment (LX (norm_seg k ++ r) [] p p [] T)
-    = LNext SSegment (LX r [] (p + seg_len k) (p + seg_len k) [] (rev (seg_toks k p) ++ T)).
+    lex_steps n SSegment (LX (norm_seg k ++ r) [] p p bs0 T)
+    = LNext SSegment (LX r [] (p + seg_len k) (p + seg_len k) bs0 (rev (seg_toks k p) ++ T)).
 Proof.
   intros Hk. destruct k as [s|i]; cbn [key_ok] in Hk.
   - set (body := flat_map norm_char s).
@@ -249,7 +254,7 @@ Proof.
     { unfold norm_seg, norm_name. fold body. cbn [app]. rewrite <- !app_assoc. reflexivity. }
     assert (Hlen : seg_len (KName s) = zlen body + 4).
     { unfold seg_len, norm_seg, norm_name. fold body. unfold zlen. repeat (rewrite ?app_length; cbn [length app]). lia. }
-    set (l1 := LX (body ++ 39%N :: 93%N :: r) [39%N] (p + 1) (p + 1 + 1) [(91%N, p + 1 - 1)] (tk T_LBRACKET [91%N] p :: T)).
+    set (l1 := LX (body ++ 39%N :: 93%N :: r) [39%N] (p + 1) (p + 1 + 1) ((91%N, p + 1 - 1) :: bs0) (tk T_LBRACKET [91%N] p :: T)).
     destruct (lex_string_literal 39 false l1 body (93%N :: r) (or_introl eq_refl) eq_refl (lex_ok_norm s Hk)) as [k [Hkb Hstr]].
     exists (1 + (1 + (k + 1)))%nat. split.
     { unfold norm_seg, norm_name. fold body. repeat (rewrite ?app_length; cbn [length app]). lia. }
@@ -258,7 +263,7 @@ Proof.
     rewrite (lex_steps_app 1 _ _ _ _ _ (eq_trans (lex_steps_1 _ _) (step_bracket_quote _ (p + 1) _ _))).
     fold l1. rewrite (lex_steps_app k 1 _ _ _ _ Hstr). rewrite lex_steps_1.
     change (with_string_token l1 39 body (93%N :: r))
-      with (LX (93%N :: r) [] (p + 1 + 1 + zlen body + 1) (p + 1 + 1 + zlen body + 1) [(91%N, p + 1 - 1)]
+      with (LX (93%N :: r) [] (p + 1 + 1 + zlen body + 1) (p + 1 + 1 + zlen body + 1) ((91%N, p + 1 - 1) :: bs0)
                (tk T_SQ_STRING body (p + 1 + 1) :: tk T_LBRACKET [91%N] p :: T)).
     change (after false) with SBracket. rewrite step_bracket_close. f_equal.
     rewrite Hlen. cbn [seg_toks rev app]. fold body.
@@ -281,8 +286,8 @@ Qed.
 
 Lemma lex_segments : forall loc p T, Forall key_ok loc ->
   exists n, (n <= length (flat_map norm_seg loc) + length loc + 1)%nat /\ (1 <= n)%nat /\
-    lex_steps n SSegment (LX (flat_map norm_seg loc) [] p p [] T)
-    = LStop (LX [] [] (p + zlen (flat_map norm_seg loc)) (p + zlen (flat_map norm_seg loc)) [] (rev (loc_toks loc p) ++ T)).
+    lex_steps n SSegment (LX (flat_map norm_seg loc) [] p p bs0 T)
+    = LStop (LX [] [] (p + zlen (flat_map norm_seg loc)) (p + zlen (flat_map norm_seg loc)) bs0 (rev (loc_toks loc p) ++ T)).
 Proof.
   induction loc as [|k loc IH]; intros p T H.
   - exists 1%nat. cbn [flat_map length loc_toks rev app]. repeat split; try lia. rewrite lex_steps_1, step_seg_eof.
@@ -300,6 +305,8 @@ Proof.
       reflexivity.
 Qed.
 
+End LexGen.
+
 Lemma lex_run_ge : forall n fuel st l l', (n <= fuel)%nat -> lex_steps n st l = LStop l' -> lex_run fuel st l = Ok l'.
 Proof.
   intros n fuel st l l' Hle H. replace fuel with (n + (fuel - n))%nat by lia. apply lex_run_steps_stop. exact H.
@@ -309,11 +316,11 @@ Theorem tokenize_norm_path loc : Forall key_ok loc ->
   m_tokenize (norm_path loc) = Ok (tk T_ROOT [36%N] 0 :: loc_toks loc 1).
 Proof.
   intros H. unfold m_tokenize, norm_path.
-  destruct (lex_segments loc 1 [tk T_ROOT [36%N] 0] H) as (n & Hn & Hn1 & E).
+  destruct (lex_segments 0 [] [] [] loc 1 [tk T_ROOT [36%N] 0] H) as (n & Hn & Hn1 & E).
   assert (Hrun : lex_steps (1 + n) SRoot (lexer_init (36%N :: flat_map norm_seg loc))
-                 = LStop (LX [] [] (1 + zlen (flat_map norm_seg loc)) (1 + zlen (flat_map norm_seg loc)) [] (rev (loc_toks loc 1) ++ [tk T_ROOT [36%N] 0]))).
-  { change (lexer_init (36%N :: flat_map norm_seg loc)) with (LX (36%N :: flat_map norm_seg loc) [] 0 0 [] []).
-    rewrite (lex_steps_app 1 n _ _ _ _ (eq_trans (lex_steps_1 _ _) (step_root _))). exact E. }
+                 = LStop (LX 0 [] [] [] [] (1 + zlen (flat_map norm_seg loc)) (1 + zlen (flat_map norm_seg loc)) [] (rev (loc_toks loc 1) ++ [tk T_ROOT [36%N] 0]))).
+  { change (lexer_init (36%N :: flat_map norm_seg loc)) with (LX 0 [] [] (36%N :: flat_map norm_seg loc) [] 0 0 [] []).
+    rewrite (lex_steps_app 1 n _ _ _ _ (eq_trans (lex_steps_1 _ _) (step_root 0 [] [] _))). exact E. }
   assert (Hll : (length loc <= length (flat_map norm_seg loc))%nat).
   { clear. induction loc as [|k loc IH]; [cbn; lia|]. cbn [flat_map length]. rewrite app_length. destruct k; cbn [norm_seg length]; lia. }
   assert (Hle : (1 + n <= lex_fuel (36%N :: flat_map norm_seg loc))%nat) by (unfold lex_fuel; cbn [length]; lia).
